@@ -7,6 +7,7 @@ package main
 
 import (
 	"bufio"
+	"bytes"
 	"context"
 	"encoding/hex"
 	"encoding/json"
@@ -145,6 +146,8 @@ func (f *fakeNode) ABCIQuery(_ context.Context, path string, data cmtbytes.HexBy
 type scripted struct {
 	mu   sync.Mutex
 	byCD map[string]rawSpec
+	// the data source files as registered on chain: an executor handed anything else cannot run it
+	files map[uint64][]byte
 }
 
 func (s *scripted) Exec(code []byte, arg string, _ interface{}) (executor.ExecResult, error) {
@@ -156,6 +159,10 @@ func (s *scripted) Exec(code []byte, arg string, _ interface{}) (executor.ExecRe
 	}
 	if rs.Exec == "error" {
 		return executor.ExecResult{}, executor.ErrRestNotOk
+	}
+	if want, ok := s.files[rs.DS]; ok && !bytes.Equal(code, want) {
+		// what a runtime answers when it is handed something that is not the data source's executable
+		return executor.ExecResult{Output: []byte("exec format error"), Code: 126, Version: "v1"}, nil
 	}
 	out, _ := hex.DecodeString(rs.Output)
 	return executor.ExecResult{Output: out, Code: rs.Code, Version: "v1"}, nil
@@ -179,7 +186,7 @@ func child(specPath string, from int) {
 		w.Flush()
 		ctx, _ := app.Ctx.CacheContext()
 		node := &fakeNode{store: map[string][]byte{}, files: map[string][]byte{}, fail: map[string]bool{}, app: app}
-		sc := &scripted{byCD: map[string]rawSpec{}}
+		sc := &scripted{byCD: map[string]rawSpec{}, files: map[uint64][]byte{}}
 		dir, err := os.MkdirTemp("", "yodacache")
 		fx.Must(err)
 		vc, err := yoda.NewVerifContext(app.BandApp, node, bandtesting.ChainID, val, 2, sc, dir, 1)
@@ -187,6 +194,7 @@ func child(specPath string, from int) {
 		cache := filecache.New(dir)
 		for _, d := range cs.DS {
 			file := fileOf(d)
+			sc.files[d.ID] = file
 			name := filecache.GetFilename(file)
 			ds := types.NewDataSource(bandtesting.Owner.Address, fmt.Sprintf("ds%d", d.ID), "", name, sdk.NewCoins(), bandtesting.Treasury.Address)
 			app.OracleKeeper.SetDataSource(ctx, types.DataSourceID(d.ID), ds)
